@@ -965,6 +965,41 @@ def run_on(rep, prog):
     return n
 
 
+def check_no_narrowing(rep, prog):
+    """R18j: with fp.hpp as the first include of a translation unit and the built-in 64-bit instantiations, no operand of ext_gcd / get_mult_inverse
+    passes through a narrowing integral conversion.  An unqualified `abs(a)` on the value type is such a place: for a class type ADL finds the
+    right overload, for `long` / `long long` only glibc's `int abs(int)` is visible at the template definition, so the operand is cut to 32 bits
+    (whether std::abs overloads happen to be visible depends on what was included before the header)."""
+    what = 'no operand of the number-theory routines is narrowed on its way into a call (fp.hpp included first, 64-bit built-in types)'
+    n = 0
+    W = {'unsigned char': 8, 'signed char': 8, 'char': 8, 'unsigned short': 16, 'short': 16, 'unsigned int': 32, 'int': 32,
+         'unsigned long': 64, 'long': 64, 'unsigned long long': 64, 'long long': 64}
+    for fn in prog.functions:
+        if fn.implicit or fn.body is None or not fn.g.startswith('parmcb::fp::') and not fn.g.startswith('parmcb::primes::'):
+            continue
+        n += 1
+        bad = None
+        for c in fn.walk():
+            if c.k not in ex.CALL_KINDS or c.k == 'CXXOperatorCallExpr':
+                continue
+            for a_ in c.args():
+                x = a_
+                while x is not None and x.k in ('ImplicitCastExpr',) and x.c:
+                    if x.j.get('ck') == 'IntegralCast':
+                        tt = ((prog.type(x.j.get('t')) or {}).get('canon') or '').replace('const ', '').strip()
+                        ft = ((prog.type(x.c[0].strip().j.get('t')) or {}).get('canon') or '').replace('const ', '').strip()
+                        if W.get(tt) is not None and W.get(ft) is not None and W[tt] < W[ft] and any(ex.refs_var(x.c[0], p_) for p_ in fn.param_ids):
+                            bad = (c, ft, tt)
+                    x = x.c[0]
+        if bad:
+            rep.violation('R18j', bad[0], fn, what, '`%s` receives its argument through a conversion from %s to %s: the call resolves to `%s`, the only overload visible when the header is '
+                          'included first - operands of 2^31 and above are truncated, the gcd and the Bezout coefficients are computed for other numbers' % (
+                              bad[0].text(30), bad[1], bad[2], (bad[0].callee or {}).get('g', '?')), key='R18j|%s|narrow-arg' % fn.g)
+        else:
+            rep.ok('R18j', fn.body, fn, what)
+    return n
+
+
 def check_index_assignment(rep, prog, cls='parmcb::SpVecFP', rule='R18i'):
     """assignment from an index makes the vector the unit vector e_index whatever it held before: the entry list is emptied (clear / a
     fresh list) before the single entry is stored.  `entries.resize(1, x)` is NOT that: resize uses its value argument only for
@@ -1043,6 +1078,13 @@ def run(rep, tier):
         n += run_on(rep, prog)
     if n == 0:
         rep.analysis_broken('fp<T>::ext_gcd not instantiated (anchor vanished)')
+    rep.rule('R18j', 'no narrowing of operands when fp.hpp is the first include (long / long long instantiations)', floor=2)
+    first = os.path.join(env.WITNESS, 'fp_first.cc')
+    try:
+        for fprog in env.extract([first], 'full').values():
+            check_no_narrowing(rep, fprog)
+    except env.AnalysisBroken as e:
+        rep.analysis_broken('witness/fp_first.cc does not compile: fp.hpp is not usable as the first include with long / long long (%s)' % str(e)[:200])
     pos = os.path.join(env.WITNESS, 'positive', 'c18_fp.cc')
     try:
         pp = env.extract([pos], 'full', ('first:-I' + os.path.join(env.WITNESS, 'positive', 'broken_include2'),))[pos]
